@@ -151,6 +151,10 @@ func (r *armoredReader) Read(p []byte) (int, error) {
 	if len(line) == 0 {
 		return 0, r.setErr(errors.New("empty line in armored data"))
 	}
+	if bytes.IndexByte(line, '\r') >= 0 {
+		// The base64 decoder would silently skip it.
+		return 0, r.setErr(errors.New("unexpected carriage return in armored data"))
+	}
 	if len(line) > format.ColumnsPerLine {
 		return 0, r.setErr(errors.New("column limit exceeded"))
 	}
